@@ -470,7 +470,7 @@ func (fr *Frame) unop(st *State, in *ssa.UnOp, def func(ssa.Value, string)) {
 	switch in.Op {
 	case token.MUL: // load
 		fr.safe(st, "nil-deref", in.Pos(), not(eq(a, "nil")))
-		v := x.load(st, in.Type(), a)
+		v := x.loadOwned(st, in.Type(), a, ownerOfAddr(in.X))
 		def(in, v)
 		x.assumeAllocated(st, in.Type(), fr.env[in])
 	case token.NOT:
